@@ -176,6 +176,14 @@ theorem dict_backdoor_unused : Purity.dictAccessOk Generated.Writes.dictAccess =
 theorem intro_results_are_fresh :
     FrontFacts.introFactsOk Generated.FrontFacts.introFacts = true := by decide
 
+/-- What makes the `freshProto` classification of the three writes in
+    `_adapt._initializers_to_constants` true (extracted on this run): the helper is called, only with
+    `<v>.graph` where `<v>` is assigned once, from `onnx.version_converter.convert_version(…)` — the
+    converter's own output, not the model `inline` was given and not `_Inline.model` — and it writes
+    nothing but its parameter. -/
+theorem converter_output_is_fresh :
+    FrontFacts.converterFactsOk Generated.FrontFacts.converterFacts = true := by decide
+
 /-- Nothing in the hand-written modules calls `hash()` (salted per interpreter for strings), `id()`,
     `random`, `uuid`, `time`, `datetime`, `secrets`, `os.urandom/getpid`, `tempfile` or
     `object.__hash__/__repr__`: no name, digest or suffix in a built model can be derived from the
